@@ -468,6 +468,47 @@ def generate(repo):
         return 'Definition g_moves_shape_ok : bool := true.'
     out.add('g_moves', moves)
 
+    # ---- pH-dependent charge and the isoelectric point
+    def titration():
+        f = S('charge_at_pH')
+        src = ' '.join(ast.unparse(f).split())
+        pos = neg = None
+        for n in ast.walk(f):
+            if isinstance(n, ast.If) and isinstance(n.test, ast.Compare) and ast.unparse(n.test.left) == 'res' \
+                    and isinstance(n.test.ops[0], ast.In):
+                body = ' '.join(ast.unparse(n.body[0]).split())
+                if body == 'total = total + 1 / (1 + np.power(10, pH - pKa_lookup[res]))':
+                    pos = str_list(n.test.comparators[0])
+                elif body == 'total = total + negative_numerator / (1 + np.power(10, pKa_lookup[res] - pH))':
+                    neg = str_list(n.test.comparators[0])
+                need(' '.join(ast.unparse(n.body[1]).split()) == 'countable_residues = countable_residues + 1', 'countable increment')
+        need(pos is not None and neg is not None, 'titration terms')
+        for frag in ["if mode == 'TOTAL': negative_numerator = 1.0 else: negative_numerator = -1.0", 'pKa_lookup = data.aminoacids.get_pKa()',
+                     'total = 0.0', 'for res in self.seq:',
+                     'if normalize: if countable_residues == 0: total = 0 else: total = float(total) / countable_residues', 'return total']:
+            need(' '.join(frag.split()) in src, 'charge_at_pH: missing `%s`' % frag[:40])
+        for fn, frag in (('FCR', "return self.charge_at_pH(pH, mode='TOTAL') / (self.len + 0.0)"),
+                         ('FER', "return (self.charge_at_pH(pH, mode='TOTAL') + self.seq.count('P')) / (self.len + 0.0)"),
+                         ('NCPR', 'return self.charge_at_pH(pH) / (self.len + 0.0)'), ('mean_net_charge', 'return abs(self.NCPR(pH))')):
+            need(frag in ' '.join(ast.unparse(S(fn)).split()), '%s: pH branch' % fn)
+        g = S('isoelectric_point')
+        gs = ' '.join(ast.unparse(g).split())
+        consts = {}
+        for st in strip_doc(g.body):
+            if isinstance(st, ast.Assign) and isinstance(st.value, ast.Constant):
+                consts[ast.unparse(st.targets[0])] = st.value.value
+        for frag in ['while True: breakcount = breakcount + 1 if breakcount == 20: if errorcount == 10: raise',
+                     'errorcount = errorcount + 1 breakcount = 0 if protein_charge > 0: max_pH = max_pH + 1 else: min_pH = min_pH - 1',
+                     'mid_pH = 0.5 * (max_pH + min_pH)', 'protein_charge = self.charge_at_pH(mid_pH, normalize=True)',
+                     'if protein_charge > threshold: min_pH = mid_pH elif protein_charge < -threshold: max_pH = mid_pH else: return mid_pH']:
+            need(' '.join(frag.split()) in gs, 'isoelectric_point: missing `%s`' % frag[:40])
+        need(set(consts) >= {'min_pH', 'max_pH', 'threshold', 'breakcount', 'errorcount'}, 'isoelectric_point constants')
+        return ('Definition g_titr_positive : list aa := %s.\nDefinition g_titr_negative : list aa := %s.\n'
+                'Definition g_pi_constants : list (string * Q) := %s.' % (
+                    coq_list([coq_aa1(c) for c in pos]), coq_list([coq_aa1(c) for c in neg]),
+                    coq_list(['(%s, %s)' % (coq_str(k), coq_q(consts[k])) for k in ('min_pH', 'max_pH', 'threshold', 'breakcount', 'errorcount')])))
+    out.add('g_titration', titration)
+
     # ---- Omega, Omega_seq, kappa_X, __parse_group
     def omega():
         f = S('Omega')
